@@ -731,25 +731,30 @@ func ruleSharedInstance(c *Ctx, rule string) {
 						if !ok || u.X != ssa.Value(g) {
 							continue
 						}
-						for _, r := range *u.Referrers() {
-							switch x := r.(type) {
-							case *ssa.Return:
-								leak = "returned by " + FnName(fn)
-							case *ssa.Store:
-								if x.Val == ssa.Value(u) {
-									leak = "stored by " + FnName(fn)
-								}
-							case *ssa.MakeInterface:
-								for _, r2 := range *x.Referrers() {
-									if _, isRet := r2.(*ssa.Return); isRet {
-										leak = "returned by " + FnName(fn)
-									}
-									if st, isSt := r2.(*ssa.Store); isSt && st.Val == ssa.Value(x) {
+						var follow func(v ssa.Value, depth int)
+						follow = func(v ssa.Value, depth int) {
+							if depth > 4 || v.Referrers() == nil {
+								return
+							}
+							for _, r := range *v.Referrers() {
+								switch x := r.(type) {
+								case *ssa.Return:
+									leak = "returned by " + FnName(fn)
+								case *ssa.Store:
+									if x.Val == v {
 										leak = "stored by " + FnName(fn)
 									}
+								case *ssa.MakeInterface:
+									follow(x, depth+1)
+								case *ssa.ChangeType:
+									follow(x, depth+1)
+								case *ssa.Phi:
+									// one of several values a variable can take (`sortBy = emptySortBy` in a branch)
+									follow(x, depth+1)
 								}
 							}
 						}
+						follow(u, 0)
 					}
 				}
 			}
